@@ -27,6 +27,10 @@ class C10(TreeCheck):
     def derive(self, base, F, rng, tier):
         quick = tier == "quick"
         out = explore.derive_D(F, base, rng, 14 if quick else 200, quals=QUALS, which=("first", "last", "second"))
+        # the manager thread lags behind (results and exit announcements pile up) while the resize runs
+        out += explore.derive_D(F, base, rng, 4 if quick else 12, quals=["_ExecutorManagerThread.process_result_item", "_ExecutorManagerThread.wait_result_broken_or_wakeup",
+                                                                       "_ExecutorManagerThread.add_call_item_to_queue", "_ExecutorManagerThread.run"], thr="mgr")
+        out += explore.derive_DS(F, base, rng, 2 if quick else 4, quals=("_ExecutorManagerThread.process_result_item", "_ExecutorManagerThread.wait_result_broken_or_wakeup"), d=0.03)
         out += explore.derive_WD(F, base, rng, 5 if quick else 14, quals=["_process_worker", "Queue.get", "SimpleQueue.put"])
         out += explore.derive_K(F, base, rng, 5 if quick else 16)
         out += explore.derive_Z(rng, 2 if quick else 6)
